@@ -216,7 +216,19 @@ def run_one(prop, run_seed, world=None, spec=None, events=None, tier="quick",
   _load_worlds()
   t0 = time.time()
   if spec is None:
-    world, spec, events = generate(prop, run_seed, tier)
+    try:
+      world, spec, events = generate(prop, run_seed, tier)
+    except Exception as e:  # pylint: disable=broad-except
+      # A generator slip voids the run (counted with the rejected
+      # configurations, whose rate the batch driver bounds).
+      return {
+          "prop": prop, "run_seed": run_seed, "world": None, "spec": None,
+          "n_events": 0, "executed": 0, "steps": 0, "restarts": 0,
+          "violation": None, "known": [], "stats": {"generator_error": 1},
+          "sig": "generator_error", "nontrivial": False,
+          "rejected": "generator error: %r" % (e,), "abs_states": [],
+          "digest": "generator_error", "wall_s": time.time() - t0,
+      }
   wcls = WORLDS[world]
   if findings is None:
     findings = findings_lib.load()
